@@ -450,6 +450,14 @@ def thorough_scale(tier, n):
         return n
 
 
+def thorough_stride():
+    try:
+        sc = float(os.environ.get("VERIF_THOROUGH_SCALE", "1"))
+    except ValueError:
+        sc = 1.0
+    return max(1, int(round(1.0 / sc))) if 0 < sc < 1 else 1
+
+
 def plan(backend, tier, seed, workroot, variants, n_random, profiles, corpus_variants="rotate", quick_corpus=None):
     """Build the job list for a compile-the-output check.
 
@@ -480,6 +488,9 @@ def plan(backend, tier, seed, workroot, variants, n_random, profiles, corpus_var
     for i, (name, path, cfg) in enumerate(entries):
         if tier == "thorough" or corpus_variants == "all":
             keys = allkeys
+            stride = thorough_stride()
+            if stride > 1 and (i + seed) % stride != 0:
+                continue  # VERIF_THOROUGH_SCALE < 1: validation run on a loaded machine
         else:
             # quick: default for everything, plus one rotating extra variant
             keys = ["default"]
